@@ -89,6 +89,8 @@ fn voting_thread(
                 tracks,
                 monitor,
             } => {
+                #[cfg(similari_verif)]
+                crate::verif_hooks::sched_point("vote.job.begin", scene_id);
                 let voting = VisualVoting::new(
                     match metric_opts.positional_kind {
                         PositionalMetricType::Mahalanobis => MAHALANOBIS_NEW_TRACK_THRESHOLD,
@@ -112,6 +114,8 @@ fn voting_thread(
                         let (dest, vt) = dest[0];
                         if dest == source {
                             t.set_track_id(tid);
+                            #[cfg(similari_verif)]
+                            crate::verif_hooks::sched_point("vote.store_write", scene_id);
                             store.write().unwrap().add_track(t).unwrap();
                             tid
                         } else {
@@ -122,6 +126,8 @@ fn voting_thread(
                                 Some(VisualAttributesUpdate::new_voting_type(vt)),
                             )
                             .unwrap();
+                            #[cfg(similari_verif)]
+                            crate::verif_hooks::sched_point("vote.store_write", scene_id);
                             store
                                 .write()
                                 .unwrap()
@@ -131,6 +137,8 @@ fn voting_thread(
                         }
                     } else {
                         t.set_track_id(tid);
+                        #[cfg(similari_verif)]
+                        crate::verif_hooks::sched_point("vote.store_write", scene_id);
                         store.write().unwrap().add_track(t).unwrap();
                         tid
                     };
@@ -142,11 +150,15 @@ fn voting_thread(
                     res.push(SortTrack::from(track))
                 }
 
+                #[cfg(similari_verif)]
+                crate::verif_hooks::sched_point("vote.result.send", scene_id);
                 let res = channel.send((scene_id, res));
                 if let Err(e) = res {
                     warn!("Unable to send results to a caller, likely the caller already closed the channel. Error is: {:?}", e);
                 }
 
+                #[cfg(similari_verif)]
+                crate::verif_hooks::sched_point("vote.monitor.dec", scene_id);
                 let (lock, cvar) = &*monitor;
                 let mut lock = lock.lock().unwrap();
                 *lock -= 1;
@@ -217,6 +229,9 @@ impl BatchVisualSort {
         } else {
             self.auto_waste.counter -= 1;
         }
+
+        #[cfg(similari_verif)]
+        crate::verif_hooks::sched_point("batch.monitor.wait", 0);
 
         if let Some(m) = &self.monitor {
             let (lock, cvar) = &**m;
@@ -313,6 +328,8 @@ impl BatchVisualSort {
                     tracks,
                 })
                 .expect("Sending voting request to voting thread must not fail");
+            #[cfg(similari_verif)]
+            crate::verif_hooks::sched_point("batch.scene.dispatched", *scene_id);
         }
     }
 
